@@ -1485,6 +1485,10 @@ def _b_isinstance(it, a, k):
                 elif isinstance(v, py):
                     return True
                 continue
+            if nm == "slice":
+                if isinstance(v, AObj) and v.cls == "builtins.slice":
+                    return True
+                continue
             if nm in ("CollectionsIterable", "Iterable"):
                 if isinstance(v, (list, tuple, set, frozenset, dict, str)):
                     return True
@@ -1723,7 +1727,7 @@ _BUILTINS = {
     "setattr": Prim(_b_setattr, "setattr"), "callable": Prim(_b_callable, "callable"),
     "print": Prim(_b_print, "print"), "bin": Prim(_b_bin, "bin"), "reversed": Prim(_b_reversed, "reversed"),
     "map": Prim(_b_map, "map"), "filter": Prim(_b_filter, "filter"), "dict": Prim(_b_dict, "dict"),
-    "float": ExtRef("float"), "object": ExtRef("object"), "super": ExtRef("super"), "property": ExtRef("property"),
+    "float": ExtRef("float"), "slice": ExtRef("slice"), "object": ExtRef("object"), "super": ExtRef("super"), "property": ExtRef("property"),
     "NotImplemented": ExtRef("NotImplemented"), "__debug__": True,
 }
 
